@@ -155,6 +155,48 @@ fn ty_stmt(rng: &mut Rng, i: usize, hist: &mut Hist) -> String {
     s
 }
 
+/// sibling places where the first compilation fixes the type of a literal that the printed text does not carry: enum
+/// values (folded to their value), constants folded into array sizes, `static const` initialisers used in expressions,
+/// default parameter values, case labels from constants, literal arguments of overloaded functions and intrinsics
+fn sibling_block(rng: &mut Rng, s: &mut String, hist: &mut Hist) {
+    let lit = |rng: &mut Rng| rng.pick(&["1", "2", "3", "2 + 1", "1 << 2", "0x4", "3u", "2u * 2u"]).to_string();
+    let n = rng.below(7);
+    hist.add(&format!("siblings-{}", n));
+    if n == 0 {
+        return;
+    }
+    s.push_str(&format!("enum SE {{ SA = {}, SB = SA + {}, SC = {}, SD }};\n", lit(rng), rng.pick(&["1", "2", "1u"]), lit(rng)));
+    s.push_str(&format!("static const int SK2 = KI + {};\nstatic const float SKF = KI * {};\nstatic const uint SKU = KU + {};\n",
+        lit(rng), rng.pick(&["2", "1.5", "2u"]), rng.pick(&["1", "1u", "2"])));
+    s.push_str(&format!("static float sarr0[KI + {}];\nstatic int sarr1[KU];\nstatic int sarr2[SB];\nstatic int sarr3[{}];\n", lit(rng), lit(rng)));
+    s.push_str(&format!("int sdef(int a = {}, uint b = {}, float c = {}, int e = KI + {}) {{ return a + (int)b + (int)c + e; }}\n",
+        lit(rng), lit(rng), rng.pick(&["1", "2.5", "1u", "KI"]), lit(rng)));
+    s.push_str("int sib(int v, uint w, float z) {\n    int r = 0;\n");
+    let pool: [&dyn Fn(&mut Rng) -> String; 12] = [
+        &|r| format!("    float la[KI * {}];\n    int lb[{}];\n", r.pick(&["2", "1", "2u"]), r.pick(&["2 + 2", "SK2", "SC", "(int)KU + 1"])),
+        &|r| format!("    r += sdef() + sdef({}) + sdef(1, {}) + sdef(v, w, {});\n", r.pick(&["1", "2u", "KI"]), r.pick(&["2", "2u", "KU"]), r.pick(&["3", "1.5", "z"])),
+        &|r| format!("    r += pick({}) + pick({}) + pq({});\n", r.pick(&["KI + 1", "SK2", "1 + 1", "(int)SB + 1"]), r.pick(&["SKF", "1.5", "KI * 1.5", "2"]), r.pick(&["2", "KU + 1", "3u", "1.5"])),
+        &|r| format!("    r += min(KI, {}) + max(1, {}) + (int)min(KU, {}) + (int)clamp(v, 0, {});\n", r.pick(&["2", "SK2"]), r.pick(&["2", "v", "KI"]), r.pick(&["2", "2u", "w"]), r.pick(&["10", "KI", "SK2"])),
+        &|r| format!("    r += (int)pow(2, {}) + abs({}) + (int)lerp(0, {}, 0.5) + (int)saturate({});\n", r.pick(&["3", "z", "KI"]), r.pick(&["-3", "v", "-KI"]), r.pick(&["1", "z", "KI"]), r.pick(&["2", "z", "1.5"])),
+        &|r| format!("    switch (v) {{ case KI: r += 1; break; case KI + {}: r += 2; break; case {}: r += 3; break; default: break; }}\n", r.pick(&["10", "20"]), r.pick(&["100", "50 + 50", "0x70"])),
+        &|r| format!("    int e0 = (int)SA + {}; uint e1 = (uint)SB + {}; float e2 = (int)SC * {}; SE e3 = (SE){};\n    r += e0 + (int)e1 + (int)e2 + (int)e3;\n", r.pick(&["1", "KI"]), r.pick(&["1u", "1", "KU"]), r.pick(&["1.5", "2", "KI"]), r.pick(&["1", "0"])),
+        &|r| format!("    r += v == SK2 ? {} : {};\n", r.pick(&["1", "KI", "2u"]), r.pick(&["2", "KI + 1", "3"])),
+        &|r| format!("    float f0 = KI + {}; float f1 = SKF * {}; uint u0 = SKU + {}; uint u1 = KI;\n    r += (int)f0 + (int)f1 + (int)u0 + (int)u1;\n", r.pick(&["1", "1.5"]), r.pick(&["2", "KI"]), r.pick(&["1", "1u", "KI"])),
+        &|r| format!("    for (int i = 0; i < KI + {}; ++i) {{ r += SK2 * {}; }}\n", r.pick(&["1", "SK2"]), r.pick(&["2", "KI"])),
+        &|r| format!("    r += (v << {}) + (KI << 1) + (int)(w >> {}) + (SK2 & {});\n", r.pick(&["1", "KI", "1u"]), r.pick(&["1", "KU", "1u"]), r.pick(&["3", "0xf", "KI"])),
+        &|r| format!("    bool b0 = KB && v > {}; r += b0 ? {} : 0; r += KB ? KI : {};\n", r.pick(&["1", "KI"]), r.pick(&["1", "SK2"]), r.pick(&["2", "0"])),
+    ];
+    for _ in 0..n {
+        let k = rng.below(pool.len() as u64) as usize;
+        hist.add(&format!("sibling-stmt-{}", k));
+        // a block of its own: the same shape may be drawn twice
+        s.push_str("    {\n");
+        s.push_str(&pool[k](rng));
+        s.push_str("    }\n");
+    }
+    s.push_str("    return r;\n}\n");
+}
+
 pub fn generate(rng: &mut Rng, hist: &mut Hist) -> Program {
     let typed = rng.chance(1, 4);
     hist.add(if typed { "program-with-typed-arguments" } else { "program-literal-arguments-only" });
@@ -206,6 +248,7 @@ pub fn generate(rng: &mut Rng, hist: &mut Hist) -> Program {
         s.push_str(&format!("{}\n{} {}({} x, int tag) {{\n{}}}\n", header, ret, name, xty, body));
         tpls.push((name, pk, arrays, c.to_string()));
     }
+    sibling_block(rng, &mut s, hist);
     // calls
     let mut calls = Vec::new();
     s.push_str("int user(int v, uint w, float z) {\n    int r = 0;\n");
